@@ -82,7 +82,9 @@ def register(check, TIERB_NOTE):
           "packages re-initialised - before every interleaved phase, failing operations mixed in). Workloads: read-only operations on one shared tree (Validate, EmitJSON, Marshal7951, "
           "ConstructIETFJSON, TogNMINotifications with shared prefix slices, GetNode with shared path messages, Diff, DiffWithAtomic, DeepCopy, EncodeTypedValue, "
           "each with its option variants) and Unmarshal (bytes and one shared decoded JSON value) / SetNode (scalar and JSON-IETF payloads at leaf, container "
-          "and list-entry paths) / UnmarshalSetRequest (requests generated as for C13, prefixes with spare capacity, some wire-decoded) "
+          "and list-entry paths) / UnmarshalSetRequest (requests generated as for C13, prefixes with spare capacity, some wire-decoded, applied with one of four option sets) "
+          "- with what a program shares besides trees: one set of EmitJSON option objects used by every reader, decimal64 values sent as float_val, a Diff of the tree against itself "
+          "whose result every caller stamps with timestamp and prefix as the documentation asks - "
           "histories into private trees sharing one schema and one pool of input messages. Oracles: (1) the race detector, with the scheduler's hand-offs and - "
           "in race-mode runs - all library-internal synchronisation hidden from it, so that two tasks are ordered only by ygot's own mutexes and the verdict "
           "does not depend on accidental ordering through sync.Pool etc.; reports are attributed to ygot by their innermost non-runtime frame; (2) every task's "
